@@ -140,16 +140,10 @@ func runC10(c *core.Ctx) {
 		}
 	}
 	runR105(c)
-}
-
-// benign L1 outcomes after the same command succeeded in L2 ("L1 holds no copy of the key")
-var benignL1 = map[string]map[string]bool{
-	"Replace": {"common.ErrKeyNotFound": true},
-	"Append":  {"common.ErrKeyNotFound": true, "common.ErrItemNotStored": true},
-	"Prepend": {"common.ErrKeyNotFound": true, "common.ErrItemNotStored": true},
-	"Delete":  {"common.ErrKeyNotFound": true},
-	"Touch":   {"common.ErrKeyNotFound": true},
-	"Add":     {"common.ErrKeyExists": true},
+	c.Rule("R10.6", "a loop collecting the replies of pipelined requests runs to its bound: an error status on one reply must not leave the others unread (the backend stream would be out of sync for the next command)", 2)
+	checkReplyCollection(c, "R10.6")
+	c.Rule("R10.7", "code that runs on a goroutine of its own (not under the connection loop's recover) never dereferences a reply header that is nil when the header read failed: such a panic terminates the whole process", 2)
+	checkNilHeaderOffLoop(c, "R10.7")
 }
 
 // runR101 is shared by C02 (R2.3) and C10 (R10.1).
@@ -213,7 +207,7 @@ func runR101(c *core.Ctx, rule string) {
 					c.Undecided(rule, key, pos, "the L1 write's error is never tested against nil: idiom not recognised")
 					continue
 				}
-				benign := benignL1[w.Method]
+				benign := benignFor(ctor, m, w.Method)
 				isComp := func(ins ssa.Instruction) bool {
 					for _, tc := range tcs {
 						if tc.Ins == ins && tc.Tier == "l1" && tc.Method == "Delete" {
@@ -610,6 +604,144 @@ func runR105(c *core.Ctx) {
 					c.Violate("R10.5", key, pos, fmt.Sprintf("on the error-status edge the function can return at %s without discarding the reply body: the next reply is read from the middle of this one", c.P.Pos(notDrained.Pos())), ssax.BlockTrail(c.P.Fset, trail)...)
 				default:
 					c.OK("R10.5", key, pos, "error body discarded from the same reader before returning; no reset while it is pending")
+				}
+			})
+		}
+	}
+}
+
+// ---------------------------------------------------------------- R10.7
+
+// returnsNilHeaderOnError: f returns (*binprot.ResponseHeader, error) and has a return with a nil header.
+func returnsNilHeaderOnError(f *ssa.Function) bool {
+	if f == nil {
+		return false
+	}
+	res := f.Signature.Results()
+	if res.Len() != 2 || types.TypeString(res.At(0).Type(), nil) != "*"+pBinprot+".ResponseHeader" {
+		return false
+	}
+	if len(f.Blocks) == 0 {
+		return false
+	}
+	for _, r := range ssax.Returns(f) {
+		for _, d := range ssax.Defs(r.Results[0]) {
+			if ssax.IsNilConst(d) {
+				return true
+			}
+		}
+	}
+	return false
+}
+
+// goReachable: functions of the handler packages statically reachable from the callee of a go statement.
+func goReachable(c *core.Ctx) map[*ssa.Function]bool {
+	out := map[*ssa.Function]bool{}
+	var visit func(f *ssa.Function, depth int)
+	visit = func(f *ssa.Function, depth int) {
+		if f == nil || out[f] || len(f.Blocks) == 0 || depth > 6 {
+			return
+		}
+		out[f] = true
+		for _, g := range append([]*ssa.Function{f}, f.AnonFuncs...) {
+			out[g] = true
+			ssax.Instrs(g, func(ins ssa.Instruction) {
+				if cc := ssax.CallOf(ins); cc != nil {
+					if callee := cc.StaticCallee(); callee != nil && callee.Pkg != nil && strings.HasPrefix(callee.Pkg.Pkg.Path(), core.Mod) {
+						visit(callee, depth+1)
+					}
+				}
+			})
+		}
+	}
+	for _, fn := range c.P.RepoFuncs("handlers") {
+		ssax.Instrs(fn, func(ins ssa.Instruction) {
+			g, ok := ins.(*ssa.Go)
+			if !ok {
+				return
+			}
+			if callee := g.Call.StaticCallee(); callee != nil {
+				visit(callee, 0)
+			} else if mc, ok := g.Call.Value.(*ssa.MakeClosure); ok {
+				visit(mc.Fn.(*ssa.Function), 0)
+			}
+		})
+	}
+	return out
+}
+
+func checkNilHeaderOffLoop(c *core.Ctx, rule string) {
+	off := goReachable(c)
+	for _, rel := range memcachedHandlerPkgs {
+		for _, fn := range pkgFuncs(c, rel) {
+			counts := map[string]int{}
+			ssax.Instrs(fn, func(ins ssa.Instruction) {
+				call, ok := ins.(*ssa.Call)
+				if !ok || !returnsNilHeaderOnError(call.Call.StaticCallee()) {
+					return
+				}
+				var h, e ssa.Value
+				for _, r := range *call.Referrers() {
+					if ex, ok := r.(*ssa.Extract); ok {
+						if ex.Index == 0 {
+							h = ex
+						} else {
+							e = ex
+						}
+					}
+				}
+				if h == nil || h.Referrers() == nil {
+					return
+				}
+				key := ordinalKey(counts, core.FuncName(fn)+"#header-deref")
+				// dereferences of h not guarded by e == nil
+				var unsafe []string
+				for _, r := range *h.Referrers() {
+					fa, ok := r.(*ssa.FieldAddr)
+					if !ok {
+						continue
+					}
+					guarded := false
+					for _, ec := range ssax.DomConds(fa.Block()) {
+						bo, ok := ec.Cond.(*ssa.BinOp)
+						if !ok {
+							continue
+						}
+						x := bo.X
+						if ssax.IsNilConst(x) {
+							x = bo.Y
+						} else if !ssax.IsNilConst(bo.Y) {
+							continue
+						}
+						isE := false
+						for _, d := range ssax.Defs(x) {
+							if d == e {
+								isE = true
+							}
+						}
+						isH := ssax.Unwrap(x) == h
+						if isE && ((bo.Op == token.NEQ && !ec.True) || (bo.Op == token.EQL && ec.True)) {
+							guarded = true
+						}
+						if isH && ((bo.Op == token.NEQ && ec.True) || (bo.Op == token.EQL && !ec.True)) {
+							guarded = true
+						}
+					}
+					if !guarded {
+						unsafe = append(unsafe, c.P.Pos(fa.Pos()))
+					}
+				}
+				unsafe = uniq(unsafe)
+				pos := c.P.Pos(call.Pos())
+				switch {
+				case len(unsafe) == 0:
+					if off[fn] {
+						c.OK(rule, key, pos, "runs on its own goroutine; the header is only dereferenced after the read succeeded")
+					}
+				case off[fn]:
+					c.Violate(rule, key, pos, fmt.Sprintf("when the header read fails the header is nil, and it is dereferenced at %s in code that runs on a goroutine of its own: the panic is not recovered by the connection loop and terminates the server process", strings.Join(unsafe, ", ")))
+				default:
+					c.Info(rule, key, pos, "nil header dereferenced at "+strings.Join(unsafe, ", ")+" when the read fails; this runs under the connection loop's recover (the connection is closed)")
 				}
 			})
 		}
